@@ -38,6 +38,13 @@ def rstrip_ascii(s):
     return s
 
 
+def norm_reject_reasons(text):
+    lines = text.split('\n')
+    for i in range(0, len(lines), 4):
+        lines[i] = re.sub(r';(RR|Rr):[^;\n]+', r';\1:*', lines[i])
+    return '\n'.join(lines)
+
+
 class Prop(fw.PropBase):
     ID = 'C01'
     PROPS = 'Props/C01.v'
@@ -421,6 +428,9 @@ class Prop(fw.PropBase):
                                    {k: v for k, v in r['result']['yields'].items() if v}):
                 dif.append('log counters %r differ from the returned ones %r' % (lg, r['result']))
         fi, fm = self.impl_files(c, r), self.model_files(mv)
+        # the statement asks for "a rejection reason", not for its wording: reject headers are compared modulo the text
+        # of a non-empty RR / Rr value (an empty or missing reason still differs, and is a specification violation)
+        fi, fm = ({k: (norm_reject_reasons(t) if k[0] == 0 else t) for k, t in f.items()} for f in (fi, fm))
         if fi != fm:
             for k in sorted(set(fi) | set(fm), key=str):
                 if fi.get(k) != fm.get(k):
